@@ -59,7 +59,7 @@ Reasons(e) == (IF WrongNonce(e) THEN {"nonce"} ELSE {}) \cup (IF CannotPay(e) TH
 Ante(c, e) ==
    CASE c = "RefusedChangesNothing" -> IsApply(e) /\ UpFront(e)
      [] c = "RevertedUnchanged"     -> IsApply(e) /\ ~Applied(e) /\ e.mode = "miner"
-     [] c = "SenderAuthentic"       -> e.ev \in {"Sender", "Resolve", "SenderV"} \/ (e.ev = "Obj" /\ e.op \in {"home", "foreign", "hash", "apply"})
+     [] c = "SenderAuthentic"       -> e.ev \in {"Sender", "Resolve", "SenderV"} \/ (e.ev = "Obj" /\ e.op \in {"home", "foreign", "hash", "apply", "badjson", "badrlp"})
      [] OTHER                       -> IsApply(e) /\ Applied(e)
 
 Holds(c, e) ==
@@ -99,6 +99,9 @@ Holds(c, e) ==
           \* after its caches were filled.  Sender, hash and the account charged when it is applied follow the fields it holds NOW
           ELSE IF e.ev = "Obj" THEN (CASE e.op \in {"home", "apply"} -> e.res = e.content
                                        [] e.op = "foreign" -> e.res \in {"err", "other"}
+                                       \* a damaged encoding is rejected (and, judged by the operations that follow, leaves the
+                                       \* value with the fields it had)
+                                       [] e.op \in {"badjson", "badrlp"} -> e.res = "err"
                                        [] OTHER -> e.res = e.content)
           ELSE IF e.ev = "SenderV" THEN ((e.res = "same") <=> (e.v = e.orig)) /\ e.res \in {"same", "err", "other"}
           \* the same sentence for one transaction OBJECT asked repeatedly, under the signer of this network ("home") and a
